@@ -324,8 +324,9 @@ func (c *regexpSimplifyChecker) simplifyCharClass(e syntax.Expr) string {
 		switch e.Args[0].Op {
 		case syntax.OpChar:
 			switch v := e.Args[0].Value; v {
-			case "|", "*", "+", "?", ".", "[", "^", "$", "(", ")":
-				// Can't take outside of the char group without escaping.
+			case "|", "*", "+", "?", ".", "[", "^", "$", "(", ")", "{", "}":
+				// Can't take outside of the char group without escaping
+				// (`a[{]2}` is not `a{2}`).
 			default:
 				return v
 			}
